@@ -18,7 +18,8 @@ NAMESPACES = ["", "ns", "com.ex", "ns.sub", "org.acme.deep"]
 FIELDS = ["a", "b", "c", "id", "next", "value", "kids", "f_1", "type", "name", "x9", "_"]
 SYMBOLS = ["A", "B", "C", "_d", "e1", "RED", "Green", "z"]
 KEYS = ["k", "a", "", "key two", "é", "中", "\U0001f600", "name", "type"]
-STRINGS = ["", "a", "foo", "été", "中文", "\U0001f600", "null", "A", "x" * 63, "y" * 64, "\x00", "line\nbreak"]
+STRINGS = ["", "a", "foo", "été", "中文", "\U0001f600", "null", "A", "x" * 63, "y" * 64, "\x00", "line\nbreak",
+           "1.5", "42", "NaN", "-inf", "1e3", "true", " 7", "2020-02-29", "00000000-0000-0000-0000-000000000005"]
 
 
 class Features:
@@ -49,6 +50,7 @@ class Features:
         self.utf8_bytes = False  # bytes data are UTF-8 encodings (bytes->string promotion stays decodable)
         self.unique_shorts = False  # unqualified names unique within a schema
         self.ns_pool = None  # override of NAMESPACES
+        self.tuples_in_unions = False  # with tuple notation disabled a tuple is an ordinary sequence everywhere
         self.ambiguous_union_defaults = False  # known finding F-UNION-DEFAULT-BRANCH (C01): excluded by construction
         self.__dict__.update(kw)
 
@@ -104,8 +106,11 @@ class SchemaBuilder:
             ns = ""
         short = d.choice(SHORTS)
         if self.table and self.f.namespaces and d.p(self.f.name_clash):
-            # deliberately re-use a short name that already exists in another namespace
-            short = M.split_full(d.choice(list(self.table)))[1]
+            # deliberately re-use a short name that already exists in another namespace; a null-namespace
+            # type shadowed from inside a namespace is the interesting shape, so prefer those
+            nulls = [n for n in self.table if "." not in n]
+            pick = d.choice(nulls) if (nulls and ns and d.p(0.6)) else d.choice(list(self.table))
+            short = M.split_full(pick)[1]
         full = ns + "." + short if ns else short
         while full in self.table or short in M.PRIMS or (self.f.unique_shorts and short in {M.split_full(x)[1] for x in self.table}):
             self.counter += 1
@@ -458,7 +463,8 @@ class Renderer:
 
     def spell_ref(self, full, ns):
         tns, short = M.split_full(full)
-        if tns == ns and (not tns or self.d.p(0.5)):
+        shadowed = bool(tns) and short in self.table
+        if tns == ns and (not tns or self.d.p(0.8 if shadowed else 0.5)):
             return short
         assert tns, (full, ns)
         return full
@@ -676,7 +682,7 @@ class DataGen:
         items = [self.gen(item, budget - 1, in_union=False) for _ in range(n)]
         if f.exotic_seqs:
             w = d.i(20)
-            if w == 0 and not in_union:
+            if w == 0 and (not in_union or f.tuples_in_unions):
                 return tuple(items)
             if w == 1:
                 return tagged.UserSeq(items)
